@@ -389,4 +389,33 @@ Proof.
       rewrite T1, L1. split; [exact V1|]. rewrite <- !app_assoc. split; reflexivity.
 Qed.
 
+(* ---------- every statement ---------- *)
+Definition stmt_ok (s : stmt) : bool :=
+  match s with
+  | SAssign ts rhs =>
+      eok F rhs && forallb target_ok ts &&
+      (let '(_, v, _) := gen F CVal rhs 0 in forallb (tsafe v) ts) &&
+      (fx_cascade F || match flattens ts rhs with None => true | Some _ => false end)
+  | SAug lhs _ rhs => aug_ok lhs rhs
+  | SDel _ es => forallb (eok F) es
+  end.
+
+Theorem stmt_correct s st : stmt_ok s = true ->
+  let '(code, _) := gen_stmt F s 0 in
+  let r := ref_stmt S (mvars st) s in
+  exists st', run S code st Normal = (st', Normal) /\
+    mvars st' = svars r /\ trace st' = trace st ++ sev r /\ leaflog st' = leaflog st ++ slf r.
+Proof.
+  destruct s as [ts rhs|lhs iop rhs|o es]; intros Ok.
+  - unfold stmt_ok in Ok.
+    apply andb_true_iff in Ok. destruct Ok as [Ok Hf]. apply andb_true_iff in Ok. destruct Ok as [Ok Sf].
+    apply andb_true_iff in Ok. destruct Ok as [Oke Okt].
+    apply assign_correct; auto.
+    + destruct (gen F CVal rhs 0) as [[c v] n]. exact Sf.
+    + apply orb_true_iff in Hf. destruct Hf as [Hf|Hf]; [left; auto | right].
+      destruct (flattens ts rhs); [discriminate | reflexivity].
+  - apply aug_correct. exact Ok.
+  - apply (del_correct S F o es st Ok).
+Qed.
+
 End StmtProofs.
